@@ -44,6 +44,8 @@ func (a c03Atom) src(c c03Cfg) string {
 		return c.LC + a.S + c.RC
 	case 'i':
 		return c.L + `import "/lib.jet"` + c.R
+	case 'n':
+		return c.L + "-" + a.S + "1" + c.R
 	}
 	s := c.L
 	if a.LTrim {
@@ -79,6 +81,10 @@ func c03Alphabet(c c03Cfg) []c03Atom {
 				as = append(as, c03Atom{Kind: 'a', S: sp, LTrim: lt, RTrim: rt})
 			}
 		}
+	}
+	// a minus that is not a trim marker (the marker is "- " with a space): -1, whatever white space follows the dash
+	for _, sp := range []string{"", "\n", "\t"} {
+		as = append(as, c03Atom{Kind: 'n', S: sp})
 	}
 	bodies := []string{"", " c ", " " + c.L + " x " + c.R + " ", "\n"}
 	// bodies that complete a closing marker overlapping the opening one ("{*" + "}b": the "*}" seen across the
@@ -120,6 +126,9 @@ func c03Ref(atoms []c03Atom) string {
 		switch a.Kind {
 		case 'a':
 			out.WriteString("M")
+			i++
+		case 'n':
+			out.WriteString("-1")
 			i++
 		case 'c', 'i':
 			i++
@@ -183,7 +192,7 @@ func c03Ambiguous(atoms []c03Atom, c c03Cfg) bool {
 			if strings.Index(body, c.RC) != sp.hi-sp.lo-len(c.LC)-len(c.RC) {
 				return true
 			}
-		case 'a', 'i':
+		case 'a', 'i', 'n':
 			if strings.HasPrefix(s[sp.lo:], c.LC) {
 				return true
 			}
